@@ -51,6 +51,7 @@ type drv struct {
 	peerMu   sync.Mutex
 	peerUp   [nSharders]bool
 	peerLfb  int64
+	peerLag  int64 // the other sharders are that many rounds behind the miners
 	peerReqs map[string]int
 
 	// per trace: the environment's view (what the miners produced)
@@ -165,6 +166,9 @@ func Run(a common.Args) {
 			rec.Fatal("behaviour %d: %v", id, err)
 		}
 		d.r = common.TraceRand(a.Seed, id)
+		if beh.K < 0 { // the model leaves the number of replicators to the rank function: any configuration
+			beh.K = []int{0, 0, 1, 2, 3}[d.r.Intn(5)]
+		}
 		d.reset(id, "tlc", beh.R, beh.K, beh.Batch, rec.M{"ops": beh.Ops})
 		for _, o := range beh.Ops {
 			d.play(o)
@@ -276,7 +280,7 @@ func (d *drv) reset(id int, kind string, maxR, repl, batch int, args rec.M) {
 	for i := range d.peerUp {
 		d.peerUp[i] = true
 	}
-	d.peerLfb = 0
+	d.peerLfb, d.peerLag = 0, 0
 	d.peerMu.Unlock()
 	d.ufbMu.Lock()
 	d.ufbCalls = nil
@@ -456,7 +460,10 @@ func (d *drv) produce(q int, ntx int, fork bool, mb ...bool) string {
 		d.canon = append(d.canon, b)
 		w.Head = b
 		d.peerMu.Lock()
-		d.peerLfb = int64(len(d.canon) - 1) // the other sharders are up to date
+		d.peerLfb = int64(len(d.canon)-1) - d.peerLag // what the other sharders have finalized
+		if d.peerLfb < 0 {
+			d.peerLfb = 0
+		}
 		d.peerMu.Unlock()
 	}
 	self := d.w.SharderNodes[0]
